@@ -6,7 +6,7 @@ id=$1; src=$2; prop=$3; shift 3
 out=/verif/seeded/$id; mkdir -p $out
 wt=/tmp/validate-$id
 git -C /repo worktree remove --force $wt >/dev/null 2>&1
-git -C /repo worktree add -q --detach $wt HEAD || exit 2
+git -C /repo worktree add -q --detach $wt ${SEED_BASE:-HEAD} || exit 2
 cp $src/demo.py $wt/demo.py
 cd $wt
 PYTHONPATH=$wt/src /venv/bin/python demo.py > $out/demo_without.log 2>&1; d0=$?
